@@ -24,6 +24,7 @@ RULE = (
 )
 ASSUMPTIONS = [
     "Jumps.split / rates raising ValueError('No jumps found') is accepted iff no jump of the whole lies completely inside some part's time bin (documented API behaviour)",
+    'Trajectory.split without equal_parts is taken to tile the source without gaps; at most one trailing frame may stay unused (the implementation drops the last frame)',
     "Transitions.split raising 'Not enough transitions' is accepted iff n_parts exceeds the number of events",
     'K7: n_parts >= n_frames makes Trajectory.split build an empty sub-trajectory (IndexError); tolerated only for exactly that input class',
 ]
@@ -37,8 +38,52 @@ K7 = 'K7-split-more-parts-than-frame-steps'
 _mon = Monitor()
 
 
+N_TSPLIT = {'quick': 40, 'thorough': 600}
+
+
 def units(tier):
-    return [{'k': 'rand', 'i': i} for i in range(N_CASES[tier])]
+    return [{'k': 'rand', 'i': i} for i in range(N_CASES[tier])] + [{'k': 'tsplit', 'i': i} for i in range(N_TSPLIT[tier])]
+
+
+def run_tsplit(unit, rng, ctx):
+    """Trajectory.split for EVERY n_parts 1..min(T-1, 24) of a trajectory whose frames carry their own
+    index in a coordinate, so that each part's frame range can be read off directly."""
+    kind, rot, m = geom.random_lattice(rng, lo=4.0, hi=8.0)
+    T = int(rng.integers(3, 420)) if unit['i'] % 4 else int(rng.choice([62, 116, 123, 231, 16, 31, 50, 61, 128, 256, 257]))
+    N = int(rng.integers(1, 4))
+    X = rng.uniform(0, 1, size=(T, N, 3))
+    X[:, 0, 0] = (np.arange(T) + 0.5) / (T + 1)
+    traj = gen.make_trajectory(m, gen.species_objects(['Li'] * N), X)
+    what = f'tsplit T={T}'
+    for n in range(1, min(T - 1, 24) + 1):
+        for eq in (False, True):
+            if rng.integers(3) == 0:
+                _ = traj.displacements
+            parts = traj.split(n, equal_parts=eq)
+            ranges = []
+            good = len(parts) == n
+            for part in parts:
+                idx = np.asarray(copy.deepcopy(part).positions)[:, 0, 0] * (T + 1) - 0.5
+                fi = np.round(idx).astype(int)
+                if len(fi) == 0 or np.abs(idx - fi).max() > 1e-6 or np.any(np.diff(fi) != 1):
+                    good = False
+                    break
+                ranges.append((int(fi[0]), int(fi[-1]) + 1))
+            ctx.decided()
+            wit = {'T': T, 'n_parts': n, 'equal_parts': eq, 'ranges': ranges}
+            if not good:
+                ctx.violation(f'{what}: split({n}, equal_parts={eq}) returned {len(parts)} parts that are not contiguous frame ranges of the source: {ranges}', wit)
+                continue
+            ordered = all(b[0] >= a[1] for a, b in zip(ranges[:-1], ranges[1:]))
+            ctx.check(ordered, f'{what}: split({n}, equal_parts={eq}) parts overlap or are out of order: {ranges}', wit)
+            lens = [b - a for a, b in ranges]
+            if eq:
+                ctx.check(len(set(lens)) == 1, f'{what}: split({n}, equal_parts=True) gave unequal lengths {lens}', wit)
+            else:
+                gaps = [b[0] - a[1] for a, b in zip(ranges[:-1], ranges[1:])]
+                ctx.check(all(g == 0 for g in gaps) and ranges[0][0] == 0 and ranges[-1][1] >= T - 1, f'{what}: split({n}) parts {ranges} do not tile the {T} source frames (at most the last frame may stay unused)', wit)
+            ctx.case(f'tsplit-{T}-{n}-{eq}', n >= 2, sample={'kind': 'tsplit', 'T': T, 'n_parts': n, 'equal_parts': eq, 'ranges': ranges[:6]} if n == 7 and not eq else None)
+    ctx.count('trajectory_split_sweeps')
 
 
 def setup(ctx):
@@ -243,7 +288,7 @@ def check_trajectory_split(traj, P, ctx, what, rng, wit):
     if rng.integers(2):
         _ = traj.displacements  # history: the source was last used in displacement representation
         what += ' [source in displacement representation]'
-    n = int(rng.integers(1, min(T - 1, 12) + 1))
+    n = int(rng.integers(1, min(T - 1, 20) + 1))
     eq = bool(rng.integers(2))
     parts = traj.split(n, equal_parts=eq)
     ok = ctx.check(len(parts) == n, f'{what}: Trajectory.split({n}, equal_parts={eq}) returned {len(parts)} parts', wit)
@@ -270,10 +315,15 @@ def check_trajectory_split(traj, P, ctx, what, rng, wit):
     ctx.check(sum(lens) <= T and all(L >= 1 for L in lens), f'{what}: Trajectory.split: part lengths {lens} exceed the source length {T} or are empty', wit)
     if eq:
         ctx.check(len(set(lens)) == 1, f'{what}: Trajectory.split(equal_parts=True) gave unequal lengths {lens}', wit)
+    else:
+        gaps = [b[0] - a[1] for a, b in zip(ranges[:-1], ranges[1:])]
+        ctx.check(all(g == 0 for g in gaps) and ranges[0][0] == 0 and ranges[-1][1] >= T - 1, f'{what}: Trajectory.split({n}) parts {ranges} do not tile the source of {T} frames (gaps {gaps}; at most the last frame may stay unused)', wit)
     ctx.count('trajectory_splits')
 
 
 def run_unit(unit, rng, ctx):
+    if unit['k'] == 'tsplit':
+        return run_tsplit(unit, rng, ctx)
     big = ctx.tier == 'thorough' and unit['i'] % 25 == 0
     T = int(rng.integers(400, 1500)) if big else int(rng.choice([int(rng.integers(4, 30)), int(rng.integers(30, 400))]))
     f = float(rng.choice([1.0, 1.0, 0.5]))
